@@ -329,6 +329,71 @@ func (x *g) mapBody(n int) string {
 
 var shapesOK = []string{"rectangle", "square", "circle", "oval", "diamond", "hexagon", "cloud", "person", "cylinder", "queue", "page", "parallelogram", "document", "step", "callout", "stored_data", "package", "text", "code", "class", "sql_table", "sequence_diagram", "hierarchy", "c4-person"}
 
+var latexDefs = []string{
+	`\definecolor{accent}{rgb}{1,0,0} \color{accent} x^2`,
+	`\definecolor{red}{rgb}{0,0,1} \color{red} y`,
+	`\newcommand{\foo}{\alpha+\beta} \foo`,
+	`\DeclareMathOperator{\op}{op} \op(x)`,
+	`\def\bar#1{[#1]} \bar{z}`,
+}
+var latexUses = []string{`\color{accent} x^2`, `\color{red} y`, `\foo + 1`, `\op(x)`, `\bar{z}`, `\frac{a}{b}`, `e^{i\pi}`}
+
+// statements that exercise process-wide render state: stacked copies (multiple) on every outline, 3d, latex
+func (x *g) renderState() string {
+	switch x.r.Intn(6) {
+	case 0:
+		x.f("render:3d-multiple")
+		return x.pick(plainNames) + ": {shape: " + x.pick([]string{"rectangle", "square", "hexagon"}) + "; style.3d: true; style.multiple: true}"
+	case 1, 2:
+		x.f("render:multiple-shape")
+		return x.pick(plainNames) + ": {shape: " + x.pick([]string{"oval", "hexagon", "queue", "cylinder", "circle", "diamond", "cloud", "person", "page", "step", "package", "stored_data", "parallelogram", "document", "callout"}) + "; style.multiple: true}"
+	case 3:
+		x.f("render:latex-def")
+		return x.pick(plainNames) + ": |latex " + x.pick(latexDefs) + " |"
+	case 4:
+		x.f("render:latex-use")
+		return x.pick(plainNames) + ": |latex " + x.pick(latexUses) + " |"
+	default:
+		x.f("render:3d")
+		return x.pick(plainNames) + ".style.3d: true"
+	}
+}
+
+// MultiErr: a program whose only errors come from at least two different validation passes of the graph compiler
+// (labels, near, edges, positions) — the order of the reported errors is part of the result.
+func MultiErr(r *rand.Rand) string {
+	passes := [][]string{
+		{"t1: \"\" {shape: text}", "tb: \"x\\ny\" {shape: sql_table}", "t2: {shape: text; label: \"  \"}"},
+		{"n1.near: nosuch", "n2: {near: n2.c; c}", "n3: {c: {near: n3}}", "n4: {c: {near: top-left}}"},
+		{"g1: {grid-rows: 2; a; b}\ng1 -> g1.a", "sq: {shape: sequence_diagram; a; b}\nsq -> sq.a", "g3: {grid-columns: 1; c: {d}}\ng3.c.d -> g3.c"},
+		{"h1: {shape: hierarchy; a: {top: 10}}", "g2: {grid-columns: 2; a: {left: 5}; b}", "s2: {shape: sequence_diagram; a: {top: 3}}"},
+	}
+	order := r.Perm(len(passes))
+	k := 2 + r.Intn(3)
+	var parts []string
+	for _, pi := range order[:k] {
+		parts = append(parts, passes[pi][r.Intn(len(passes[pi]))])
+		if r.Intn(3) == 0 {
+			parts = append(parts, passes[pi][r.Intn(len(passes[pi]))])
+		}
+	}
+	// a few harmless objects around them
+	for i, n := 0, r.Intn(4); i < n; i++ {
+		parts = append(parts, fmt.Sprintf("ok%d -> ok%d", i, i+1))
+	}
+	r.Shuffle(len(parts), func(i, j int) { parts[i], parts[j] = parts[j], parts[i] })
+	// the same snippet twice would redeclare: dedupe
+	seen := map[string]bool{}
+	var out []string
+	for _, p := range parts {
+		if !seen[p] {
+			seen[p] = true
+			out = append(out, p)
+		}
+	}
+	return strings.Join(out, "\n") + "\n"
+}
+
 func (x *g) validReserved() string {
 	switch x.r.Intn(14) {
 	case 0:
@@ -561,8 +626,16 @@ func (x *g) classUse() string {
 	switch k := x.r.Intn(8); {
 	case k < 4:
 		return "class: " + x.clsName()
-	case k < 6:
+	case k < 5:
 		return "class: [" + x.clsName() + "; " + x.clsName() + "]"
+	case k < 6:
+		// a repeated name among at least two distinct ones (order must follow the array, duplicates included or not)
+		x.f("class:array-repeated")
+		a, b := x.clsName(), x.clsName()
+		for i := 0; i < 4 && b == a; i++ {
+			b = x.pick(plainNames)
+		}
+		return x.pick([]string{"class: [" + a + "; " + b + "; " + a + "]", "class: [" + b + "; " + a + "; " + a + "; " + b + "]", "class: [" + a + "; " + b + "; c; " + b + "; " + a + "]"})
 	case k < 7 && !x.o.Valid:
 		return "class: " + x.array()
 	default:
@@ -764,8 +837,13 @@ func (x *g) stmt() string {
 				continue
 			}
 			return x.globStmt()
-		case k < 70:
+		case k < 68:
 			return x.validReserved()
+		case k < 70:
+			if !x.o.Render && x.chance(0.7) {
+				continue
+			}
+			return x.renderState()
 		case k < 76:
 			if x.o.Valid {
 				continue
